@@ -71,6 +71,16 @@ ScnConc2 ==
 ScnConc3 ==
   { Scn("refresh||revoke||probe", BaseCfg, <<AuthzCode, RedeemOK(1)>>, <<RefreshOK(1), RevokeRT(1), Probe("rt", 1)>>, <<>>),
     Scn("revoke||revoke||probe", BaseCfg, <<AuthzCode, RedeemOK(1)>>, <<RevokeRT(1), RevokeAT(1), Probe("at", 1)>>, <<RefreshOK(1)>>) }
+(* C15: the same assertion presented by two / three requests at once; different jtis do not interfere *)
+JAuth(j) == [op |-> "jauth", val |-> j]
+JBearer(j) == [op |-> "jbearer", val |-> j]
+ScnJti ==
+  { Scn("jauth||jauth", BaseCfg, <<>>, <<JAuth("j1"), JAuth("j1")>>, <<>>),
+    Scn("jauth||jauth||jauth", BaseCfg, <<>>, <<JAuth("j1"), JAuth("j1"), JAuth("j1")>>, <<>>),
+    Scn("jbearer||jbearer", BaseCfg, <<>>, <<JBearer("j1"), JBearer("j1")>>, <<>>),
+    Scn("jbearer||jbearer||jbearer", BaseCfg, <<>>, <<JBearer("j1"), JBearer("j1"), JBearer("j1")>>, <<>>),
+    Scn("jauth||jauth-other", BaseCfg, <<>>, <<JAuth("j1"), JAuth("j2")>>, <<>>),
+    Scn("jauth||jbearer", BaseCfg, <<>>, <<JAuth("j1"), JBearer("j1")>>, <<>>) }
 ScnSmoke == { Scn("redeem", CfgStore("tx"), <<AuthzCode>>, <<RedeemOK(1)>>, <<RedeemOK(1)>>) }
 
 (* ---- behaviour ------------------------------------------------------------------- *)
@@ -117,7 +127,7 @@ TxPcs == {"rd.inval", "rd.createAT", "rd.createRT", "rd.commit", "rf.rdel", "rf.
           "rd.rollback", "rf.rollback", "dp.rollback"}
 IssuingPcs == {"rd.inval", "rd.createAT", "rd.createRT", "rd.commit", "rf.rotate", "rf.createAT", "rf.createRT", "rf.commit",
                "dp.inval", "dp.createAT", "dp.createRT", "dp.commit"}
-TokenReq(p) == procs[p].op.op \in {"redeem", "refresh", "devpoll"}
+TokenReq(p) == procs[p].op.op \in {"redeem", "refresh", "devpoll", "jauth", "jbearer"}
 
 (* C18 *)
 NoTokensOnFailure ==
@@ -139,6 +149,14 @@ HandedOutActiveOrKilledByPeer ==
   \A p \in DOMAIN procs : (procs[p].pc = "done" /\ procs[p].out.res = "ok" /\ TokenReq(p) /\ post = 1) =>
        \/ ATActive(G.st, procs[p].out.at)
        \/ (Len(procs) > 1 /\ G.st.S.at[procs[p].out.at].why # "")      \* invalidated by a concurrent request
+(* C15 *)
+JtiAtMostOnce ==
+  \A p, q \in DOMAIN procs :
+     (p # q /\ procs[p].pc = "done" /\ procs[q].pc = "done" /\ procs[p].out.res = "ok" /\ procs[q].out.res = "ok"
+      /\ procs[p].op.op \in {"jauth", "jbearer"} /\ procs[q].op.op \in {"jauth", "jbearer"}) => procs[p].op.val # procs[q].op.val
+JtiSomeoneWins ==     \* not vacuous: when all presentations have finished, exactly one of those sharing a jti succeeded
+  (Running = {} /\ \A p \in DOMAIN procs : procs[p].op.op \in {"jauth", "jbearer"}) =>
+     \A p \in DOMAIN procs : \E q \in DOMAIN procs : procs[q].op.val = procs[p].op.val /\ procs[q].out.res = "ok"
 MintFresh ==
   \A p, q \in DOMAIN procs : (p # q /\ procs[p].pc = "done" /\ procs[q].pc = "done" /\ procs[p].out.at # 0) =>
        procs[p].out.at # procs[q].out.at
@@ -152,7 +170,7 @@ SeqRefines ==
     \A p \in DOMAIN procs :
        LET r == RunSeq(G, procs[p])
            a == Apply(G.st, sc.procs[p])
-       IN sc.procs[p].op = "probe" \/ (r.G.st = a.st /\ r.pr.out.res = a.out.res /\ r.pr.out.at = a.out.at /\ r.pr.out.rt = a.out.rt
+       IN sc.procs[p].op \in {"probe", "jauth", "jbearer"} \/ (r.G.st = a.st /\ r.pr.out.res = a.out.res /\ r.pr.out.at = a.out.at /\ r.pr.out.rt = a.out.rt
                                          /\ r.pr.out.code = a.out.code /\ r.pr.out.idt = a.out.idt)
 
 View == <<G, procs, nf, sc.name, post, stepok, faultpc>>
